@@ -494,7 +494,8 @@ def call_count_findings(case, max_findings=3):
     model = plumbing.make_model(case)
     model.blobs = True
     model.stateful = True
-    has_comp = any(kw.get('componentwise') for _, _, kw in case.props)
+    listed = [pr for i, pr in enumerate(case.props) if i != getattr(case, 'unlisted', None)]
+    has_comp = any(kw.get('componentwise') for _, _, kw in listed)
 
     def bad(key, text, extra=None):
         if len(out) < max_findings:
@@ -524,7 +525,7 @@ def call_count_findings(case, max_findings=3):
                 # componentwise scaling: one documented virtual evaluation per adapted parameter on every
                 # iteration in which the proposal is due and adapting (1 < dk < adaptation_duration)
                 it_before = sampler.chains[0].iteration - op[1]
-                for fam, names, kw in case.props:
+                for fam, names, kw in listed:
                     if not kw.get('componentwise'):
                         continue
                     k_ = kw.get('jump_interval', 1)
@@ -540,7 +541,7 @@ def call_count_findings(case, max_findings=3):
                     # not apply (the plumbing correspondence compares the exact count, `extraCalls`); here
                     # only the bounds that hold whatever the outcomes
                     base = op[1] * per_iter
-                    most = base + op[1] * per_iter * sum(len(names) for _, names, kw in case.props if kw.get('componentwise'))
+                    most = base + op[1] * per_iter * sum(len(names) for _, names, kw in listed if kw.get('componentwise'))
                     if not base <= made <= most:
                         bad('run-calls', 'run(%d) made %d model calls, expected between %d and %d' % (op[1], made, base, most),
                             {'nchains': case.nchains, 'nlevels': nlev})
